@@ -79,14 +79,21 @@ class LifecycleRecorder:
         self.next_id = 0
         self.completed = 0
         self.closed_at_invoke: dict[int, bool] = {}
+        self.sched: Any = None  # threaded harnesses: the baton scheduler (the recorder goes silent while it aborts a run)
 
     def _guard(self, fn: Callable[..., None], *args: Any, detail: str = "", site_suffix: str = "") -> None:
+        sched = self.sched
+        if sched is not None and sched.aborting:
+            raise ThreadAbort()  # threads unwind concurrently during an abort: nothing they do belongs to the history
         try:
             fn(*args, self.world.next_seq())
         except L.Inconsistent as exc:
             self.world.fail(Violation(exc.clause, exc.message + (f"\n detail: {detail}" if detail else ""), key=f"C18/{self.harness}/model/{exc.site}{site_suffix}"))
 
     def invoke(self, actor: str, kind: str) -> int:
+        sched = self.sched
+        if sched is not None and sched.aborting:
+            raise ThreadAbort()
         self.next_id += 1
         opid = self.next_id
         if kind == L.SERVE:
@@ -96,6 +103,9 @@ class LifecycleRecorder:
         return opid
 
     def ret(self, actor: str, opid: int, outcome: str, detail: str = "") -> None:
+        sched = self.sched
+        if sched is not None and sched.aborting:
+            raise ThreadAbort()
         self.world.log("ret", actor, self.model.kinds[opid], opid, outcome)
         self.completed += 1
         self.world.progress(1)
@@ -103,6 +113,7 @@ class LifecycleRecorder:
         self._guard(self.model.ret, opid, outcome, detail=detail)
 
     def up(self, opid: int) -> None:
+        self._live()
         self.world.log("up", "srv", opid)
         # structural site: a server that was closed BEFORE this serve_forever was invoked / a close that overlapped its start-up /
         # anything else (e.g. two runners)
@@ -115,10 +126,17 @@ class LifecycleRecorder:
         self._guard(self.model.observe_up, opid, site_suffix=suffix)
 
     def handler(self, what: str) -> None:
+        self._live()
         self.world.log("handler", "srv", what)
         self._guard(self.model.observe_handler)
 
+    def _live(self) -> None:
+        sched = self.sched
+        if sched is not None and sched.aborting:
+            raise ThreadAbort()
+
     def is_serving(self, actor: str, value: bool) -> None:
+        self._live()
         self.world.log("is_serving", actor, value)
         self._guard(self.model.observe_is_serving, value)
 
@@ -498,6 +516,7 @@ def _h(world: World, kind: str) -> None:
 # (atomic=(): where a call takes effect between invoke and return is unknown), same extra clauses.
 THREAD_OPS = ("serve_bg", "shutdown", "client", "is_serving", "close", "serve", "serve_nst", "client", "shutdown_t", "close")
 SHUTDOWN_TIMEOUTS = (0.0, 1 / 64.0, 8 / 64.0)
+UNTIMED_AS = 4.0
 
 
 class _RecordedServer:
@@ -525,10 +544,12 @@ class _RecordedServer:
         except ThreadAbort:
             raise
         except Exception as exc:
+            rec._live()
             name = type(exc).__name__
             run.current.pop(actor, None)
             rec.ret(actor, opid, SERVE_ERRORS.get(name, name), f"{name}: {exc}"[:300])
             raise
+        rec._live()
         run.current.pop(actor, None)
         rec.ret(actor, opid, L.NONE)
 
@@ -537,15 +558,22 @@ class _RecordedServer:
         opid = rec.invoke(actor, L.SHUTDOWN)
         run.current[actor] = f"shutdown#{opid}"
         t0 = run.world.now
+        if timeout is None and run.world.avoid_known:
+            # open finding (shutdown() that overlaps the very start of a serve_forever() waits for a server it never asked to
+            # stop, possibly forever): with API.md rule 6 the untimed call is issued with a long timeout, so that this class ends
+            # as "timed_out" instead of a hang; the remaining runs keep the untimed call
+            timeout = UNTIMED_AS
         try:
             self._srv.shutdown(timeout) if timeout is not None else self._srv.shutdown()
         except ThreadAbort:
             raise
         except Exception as exc:
+            rec._live()
             name = type(exc).__name__
             run.current.pop(actor, None)
             rec.ret(actor, opid, name, f"{name}: {exc}"[:300])
             raise
+        rec._live()
         run.current.pop(actor, None)
         # shutdown(timeout) returns None whether or not it gave up waiting: it certainly did not give up when less virtual time
         # than the timeout has passed
@@ -561,10 +589,12 @@ class _RecordedServer:
         except ThreadAbort:
             raise
         except Exception as exc:
+            rec._live()
             name = type(exc).__name__
             run.current.pop(actor, None)
             rec.ret(actor, opid, {"BusyResourceError": L.BUSY_ERROR}.get(name, name), f"{name}: {exc}"[:300])
             raise
+        rec._live()
         run.current.pop(actor, None)
         rec.ret(actor, opid, L.NONE)
         run.after_close(actor)
@@ -574,6 +604,7 @@ class _RecordedServer:
         opid = rec.invoke(actor, L.IS_SERVING)
         run.current[actor] = f"is_serving#{opid}"
         value = bool(self._srv.is_serving())
+        rec._live()
         run.current.pop(actor, None)
         rec.ret(actor, opid, str(value))
         return value
@@ -731,6 +762,7 @@ class ThreadRun:
             finally:
                 if client is not None:
                     client.close()
+        self.rec._live()
         self.current.pop(actor, None)
         if got is not None and got != expected:
             self.world.fail(Violation("client-gets-the-right-answer", f"client {n} sent {request!r} and received {got!r}", key=f"C18/{self.harness}/wrong-answer"))
@@ -807,6 +839,13 @@ class ThreadRun:
                     elif op == "shutdown_t":
                         self.srv.shutdown(arg)
                     elif op == "close":
+                        if self.world.avoid_known:
+                            # open finding (standalone server_close() during the set-up window swallows BusyResourceError and
+                            # returns while the server comes up): postponed until no serve_forever can be starting; API.md rule 6
+                            for _ in range(int(CALL_BOUND * 64)):
+                                if not self.rec.model.possibly(L.STARTING):
+                                    break
+                                time.sleep(1 / 64.0)
                         self.srv.server_close()
                     elif op == "is_serving":
                         self.srv.is_serving()
@@ -828,9 +867,13 @@ class ThreadRun:
             Violation(
                 "no-call-hangs",
                 f"{what} did not finish within {CALL_BOUND} virtual seconds although no further call was pending; calls in progress: [{pend}]; model states {self.rec.model.possible_states()}; history: {self.rec.model.history[-30:]}",
-                key=f"C18/{self.harness}/hang/{what.split('#')[0]}",
+                key=f"C18/{self.harness}/hang/pending={self.pending_kinds()}",
             )
         )
+
+    def pending_kinds(self) -> str:
+        """structural part of a hang key: which kinds of calls were in progress"""
+        return "+".join(sorted({c.split("#")[0] for c in self.current.values()})) or "none"
 
     def wait_for(self, what: str, pred: Callable[[], bool]) -> None:
         import time
@@ -842,6 +885,23 @@ class ThreadRun:
             if self.world.now > deadline:
                 self.no_progress(what)
             time.sleep(1 / 64.0)
+
+    def stop_all(self) -> None:
+        """a serve_forever that was queued behind the locks of the previous one only starts once that one has finished:
+        keep shutting down until every serve_forever thread has ended"""
+        import time
+
+        for _round in range(12):
+            self.srv.shutdown()
+            deadline = self.world.now + 1.0
+            while any(t.is_alive() for t in self.bg) and self.world.now < deadline:
+                if self.world.fatal is not None:
+                    raise self.world.fatal
+                time.sleep(1 / 64.0)
+            if not any(t.is_alive() for t in self.bg):
+                self.srv.is_serving()
+                return
+        self.no_progress("serve_forever#bg")
 
     def main(self) -> None:
         import threading
@@ -860,18 +920,13 @@ class ThreadRun:
             self.srv.shutdown()
         else:
             raise HarnessError("caller threads still parked after 16 shutdowns")
-        self.srv.shutdown()
-        self.srv.is_serving()
-        for t in list(self.bg):
-            self.wait_for("serve_forever#bg", lambda t=t: not t.is_alive())
+        self.stop_all()
         if not self.rec.model.close_invoked:
             # a stopped-not-closed server accepts and answers a client after the next serve_forever
             t = self.spawn_serve("epi.bg", nst=False)
             self.wait_for("serve_forever#up", lambda: self.rec.model.certainly(L.SERVING) or not t.is_alive())
             self.do_client()
-            self.srv.shutdown()
-            self.srv.is_serving()
-            self.wait_for("serve_forever#epi", lambda: not t.is_alive())
+            self.stop_all()
         self.srv.server_close()
         try:
             self.srv.serve_forever()
@@ -894,6 +949,7 @@ def _h_threads(world: World, kind: str) -> None:
     sched = Scheduler(world, switch_den=run.switch_den, preempt_files=("servers/_base.py", "servers/threads_helper.py", "_asyncio/threads.py") if run.max_preemptions else (), max_preemptions=run.max_preemptions)
     sched.preempt_den = run.preempt_den
     world.sched = sched  # type: ignore[attr-defined]
+    run.rec.sched = sched
     saved_hook = threading.excepthook
     threading.excepthook = lambda args: None  # type: ignore[assignment]
     try:
@@ -903,8 +959,7 @@ def _h_threads(world: World, kind: str) -> None:
         if isinstance(world.fatal, Violation):
             raise world.fatal from None
         pend = ", ".join(f"{a}:{c}" for a, c in sorted(run.current.items()))
-        call = sorted(run.current.values())[0].split("#")[0] if run.current else "none"
-        raise Violation("no-call-hangs", f"deadlock: {exc}; calls in progress: [{pend}]; model states {run.rec.model.possible_states()}; history: {run.rec.model.history[-30:]}", key=f"C18/{run.harness}/hang/{call}") from None
+        raise Violation("no-call-hangs", f"deadlock: {exc}; calls in progress: [{pend}]; model states {run.rec.model.possible_states()}; history: {run.rec.model.history[-30:]}", key=f"C18/{run.harness}/hang/pending={run.pending_kinds()}") from None
     except BaseException:
         if isinstance(world.fatal, Violation):
             raise world.fatal from None
@@ -918,9 +973,11 @@ def _h_threads(world: World, kind: str) -> None:
     world.probe(f"model-peak-configs>={min(run.rec.model.peak, 64) // 8 * 8}")
 
 
+# NB: the runner derives avoid_known from (run index % 5): keep the schedule length (sum of weights) coprime to 5, otherwise
+# some harness would never see avoid_known == False
 HARNESSES = [
-    Harness("aio-tcp", lambda w: _h(w, "tcp"), weight=4),
-    Harness("aio-udp", lambda w: _h(w, "udp"), weight=4),
+    Harness("aio-tcp", lambda w: _h(w, "tcp"), weight=3),
+    Harness("aio-udp", lambda w: _h(w, "udp"), weight=3),
     Harness("thr-tcp", lambda w: _h_threads(w, "tcp"), weight=1, wall_limit=60.0),
     Harness("thr-udp", lambda w: _h_threads(w, "udp"), weight=1, wall_limit=60.0),
 ]
